@@ -74,7 +74,11 @@ def segmentations(stream, rng, tier):
     n = len(stream)
     segs = []
     segs.append([stream])
-    segs.append([stream[i:i + 1] for i in range(n)])
+    if n <= 400:
+        segs.append([stream[i:i + 1] for i in range(n)])
+    else:
+        k = rng.randint(0, n - 200)          # byte-at-a-time over a window of a long stream
+        segs.append([stream[:k]] + [stream[i:i + 1] for i in range(k, k + 200)] + [stream[k + 200:]])
     # every placement of up to 2 cut points (3 for short streams)
     maxlen3 = 26 if tier == 'quick' else 60
     maxlen2 = 90 if tier == 'quick' else 400
@@ -127,6 +131,13 @@ def run(ctx, res):
             meth = rng.choice(wire.REQUEST_METHODS)
             lines.append(wire.encode_line(g.rid(), meth, g.request(meth), rng.choice([b'\r\n', b'\n'])))
         streams.append((lines, rng.choice([b'', b'12|SUB|S|it']), True))
+    # lines whose length is exactly the recv size, one less, one more, twice
+    for target in (RECV - 1, RECV, RECV + 1, 2 * RECV):
+        head = b'7|NSC|S|'
+        ln = head + b'x' * (target - len(head) - 2) + b'\r\n'
+        assert len(ln) == target
+        streams.append(([ln, b'8|NSC|S|y\n'], b'', True))
+        streams.append(([b'6|NSC|S|w\r\n', ln], b'9|SUB|S|it', True))
     # short hand-made streams for the exhaustive 3-cut enumeration
     streams.append(([b'1|A|S|x\r\n', b'2|B\n'], b'3|C\r', True))
     streams.append(([b'a\n', b'\r\n', b'b|c\r\n'], b'', True))
